@@ -63,6 +63,8 @@ enum Op {
     OP_OFFSETS, // C12: run the static-offset generator, "compile" its output
     OP_RESTART, // C13: the process ends; a new one starts with nothing loaded
     OP_DECODE,  // C13: decode the text emitted by the last encoding update
+    OP_RECYCLE, // a method registration object destroyed and constructed again
+                // in place, while its definitions stay registered
     OP_COUNT
 };
 
@@ -70,7 +72,7 @@ inline const char* op_name(int op) {
     static const char* n[] = {"load",    "unload",  "update",  "check",
                               "relocate", "handler", "call",    "vp_make",
                               "vp_copy", "vp_use",  "vp_drop", "offsets",
-                              "restart", "decode"};
+                              "restart", "decode",  "recycle"};
     return n[op];
 }
 
